@@ -292,10 +292,7 @@ ALL_SYMS = None
 
 
 def all_symbols():
-    global ALL_SYMS
-    if ALL_SYMS is None:
-        ALL_SYMS = sorted(catalogue().keys())
-    return ALL_SYMS
+    return sorted(catalogue().keys())
 
 
 def random_tree(rng, n_leaves, mode="physical", label_classes=None, depth=0, max_sub_depth=2, leaf_syms=None,
